@@ -477,12 +477,14 @@ impl Prop for Accuracy {
 
 pub fn run<C: Codec>(tier: Tier) -> i32 {
     let mut ctx = Ctx::<C>::new("C18", tier);
-    ctx.assumptions.push("both endpoints and the proxy share one virtual clock (paused tokio runtime): 'the master's clock at that instant' is exact; replies with unexpected objects cannot be produced by the real outstation and are covered by the scripted sub-check of C16/C15 only in part".into());
+    ctx.assumptions.push("both endpoints and the proxy share one virtual clock (paused tokio runtime): 'the master's clock at that instant' is exact; replies with unexpected objects cannot be produced by the real outstation: sub-check `unexpected` scripts them against the real master".into());
     ctx.assumptions.push("a dishonest processing-delay report is only required to be caught when it exceeds the round trip; whether a fault-free synchronisation must succeed is not part of the statement (observed as a label)".into());
     ctx.run::<Accuracy>();
+    ctx.run::<super::c18u::Unexpected>();
     ctx.finish()
 }
 
 pub fn replay<C: Codec>(text: &str, known: &[Known]) -> Option<i32> {
     replay_file::<C, Accuracy>(text, known)
+        .or_else(|| replay_file::<C, super::c18u::Unexpected>(text, known))
 }
